@@ -577,7 +577,6 @@ pub fn project(s: &mut Src, pc: &ProjectCfg) -> ProjectM {
     }
     let defined: Vec<Name> = keys.iter().map(|k| k.0.clone()).collect();
     let mut cfg = pc.gen.clone();
-    cfg.type_names = Some(reference_names(&defined));
     let mut files = Vec::new();
     for (key, kind) in &keys {
         let package: Name = key[..key.len() - 1].to_vec();
@@ -621,6 +620,23 @@ pub fn project(s: &mut Src, pc: &ProjectCfg) -> ProjectM {
                 name: nm,
             });
         }
+        // references: the general candidates plus (twice) the spellings that hit this
+        // file's own imports and forward declarations
+        let mut names = reference_names(&defined);
+        for _ in 0..2 {
+            for im in &imports {
+                names.push(vec![im[im.len() - 1].clone()]);
+                names.push(im.clone());
+                if im.len() > 2 {
+                    names.push(im[im.len() - 2..].to_vec());
+                }
+            }
+            for d in &decls {
+                names.push(d.name.clone());
+                names.push(vec![d.name[d.name.len() - 1].clone()]);
+            }
+        }
+        cfg.type_names = Some(names);
         let it = item(s, &cfg, name, *kind);
         files.push(FileM {
             package,
